@@ -251,7 +251,7 @@ func checkC11(c *lib.Ctx) {
 			l = append(l, cc.cfg)
 		}
 		bad, n := cntVariantsSelfTest(l)
-		r.Histogram["selftest/interface-variants-verified-by-type-assertion"] += n
+		r.HistAdd("selftest/interface-variants-verified-by-type-assertion", n)
 		for _, b := range bad {
 			r.Fail(lib.Failure{Kind: "tie", Key: "tie/interface-variant-selftest", What: b})
 		}
